@@ -188,7 +188,7 @@ def render_class(desc, name="Config", default_doc=False, indent="", quote_code=F
 
 
 def render_function(desc, name="train", ftype="static", inline_types=True, kwonly=False, body=None, indent="",
-                    documented=None, style="rest"):
+                    documented=None, style="rest", extra_documented=()):
     """documented: None = all parameters, else the list of names (in that order) the docstring documents."""
     args = []
     if ftype in ("self", "cls"):
@@ -214,7 +214,8 @@ def render_function(desc, name="train", ftype="static", inline_types=True, kwonl
     lines = [indent + "def %s(%s)%s:" % (name, ", ".join(args), ret_ann), ind + '"""', ind + desc["doc"], ""]
     byname = {p["name"]: p for p in desc["params"]}
     doc_names = [p["name"] for p in desc["params"]] if documented is None else list(documented)
-    lines += _doc_lines(style, [byname[n] for n in doc_names], r, inline_types, ind)
+    stale = [{"name": n, "typ": "int", "doc": "no longer a parameter (%s)" % n, "default": None} for n in extra_documented]
+    lines += _doc_lines(style, [byname[n] for n in doc_names] + stale, r, inline_types, ind)
     lines.append(ind + '"""')
     for stmt in (body or []):
         lines.append(ind + stmt)
@@ -335,6 +336,10 @@ def unrelated_statements(ch, label, colliding, k, after_def=None, local_name=Non
     if after_def:
         kinds = kinds + ["rebind", "rebind_ann", "use_after"]
     kinds = kinds + ["async_local_class", "def_local_class"]
+    import sys as _sys
+
+    if _sys.version_info[:2] >= (3, 12):
+        kinds = kinds + ["generic_class", "generic_function", "decorated_class"]
     for i in range(k):
         kind = ch.choice("%s.u%d.kind" % (label, i), kinds)
         tag = "%s%d" % (label.replace(".", "_").replace("-", "_"), i)
@@ -353,6 +358,12 @@ def unrelated_statements(ch, label, colliding, k, after_def=None, local_name=Non
             src = "%s_alias: type = %s" % (after_def, after_def) if ch.chance("%s.u%d.al" % (label, i), 0.5) else "%s: object = %s" % (after_def, after_def)
         elif kind == "use_after":
             src = "INSTANCES_%s = [%s]" % (tag.upper(), after_def)
+        elif kind == "generic_class":
+            src = "class Box_%s[T]:\n    item: T\n\n    def get(self) -> T:\n        return self.item" % tag
+        elif kind == "generic_function":
+            src = "def first_%s[T](xs: list[T], *, fallback: T = None) -> T:\n    return xs[0] if xs else fallback" % tag
+        elif kind == "decorated_class":
+            src = "@register(name=%r, order=2)\nclass Plugin_%s(Base, metaclass=Meta):\n    __slots__ = ('a', 'b')\n\n    @property\n    def a2(self):\n        return self.a * 2" % (tag, tag)
         elif kind == "async_local_class":
             # a coroutine with a local class that carries the name of the synchronised definition
             tname = colliding[0] if colliding else "Config"
